@@ -19,6 +19,7 @@ package source
 //@   ensures [stays-on-a-member-that-moved] newToken != old(c.Tokens[c.activeIdx].Token) ==> result && c.activeIdx == old(c.activeIdx)
 //@   ensures [done-only-after-the-last-member-stopped-moving] !result ==> old(c.activeIdx) == len(c.Tokens) - 1 && newToken == old(c.Tokens[c.activeIdx].Token)
 //@   ensures [index-stays-in-range] 0 <= c.activeIdx && c.activeIdx < len(c.Tokens)
+//@   modifies UnionDatasetContinuation.activeIdx, []*source.StringDatasetContinuation, StringDatasetContinuation.Token
 //@   safe index
 
 // token conversions are the identity on non-negative ints (strconv.Atoi . strconv.Itoa)
@@ -52,3 +53,31 @@ package source
 //@     ghost contG := $result0
 //@   at call processEntities#1 before
 //@     assert [token-handed-on-is-the-one-the-read-returned] incrG ==> cont != nil && cont.Token == itoa(contG)
+
+// every member of the union is read with its own token: the continuation must have exactly one token per member
+//@ assumed (*UnionDatasetContinuation).GetToken
+//@   pure
+//@ assumed (*UnionDatasetContinuation).AsIncrToken
+//@   pure
+
+//@ unit (*UnionDatasetSource).ReadEntities
+//@   prop C08
+//@   requires s != nil && len(s.DatasetSources) > 0
+//@   requires forall i int :: 0 <= i && i < len(s.DatasetSources) ==> s.DatasetSources[i] != nil
+//@   requires typeof(token) == typeid("*source.UnionDatasetContinuation") ==> cast(token, "*source.UnionDatasetContinuation") != nil
+//@   requires-inv [names-and-tokens-in-step] typeof(token) == typeid("*source.UnionDatasetContinuation") ==> len(cast(token, "*source.UnionDatasetContinuation").DatasetNames) == len(cast(token, "*source.UnionDatasetContinuation").Tokens)
+//@   dyncall processEntities preserves UnionDatasetSource.*, UnionDatasetContinuation.*, []*source.DatasetSource, []*source.StringDatasetContinuation, DatasetSource.*
+//@   safe index
+//@   at call IsDataset#1 before
+//@     assert [one-token-per-member-dataset] len(d.Tokens) == len(s.DatasetSources) && 0 <= d.activeIdx && d.activeIdx < len(s.DatasetSources)
+//@   at call Update#1 before
+//@     assume forall i int :: 0 <= i && i < len(d.Tokens) ==> d.Tokens[i] != nil
+//@   at call Update#2 before
+//@     assume forall i int :: 0 <= i && i < len(d.Tokens) ==> d.Tokens[i] != nil
+//@   loop 1
+//@     invariant -1 <= $i && $i < len(s.DatasetSources) && len(d.Tokens) == $i + 1 && d.activeIdx == 0 && len(d.DatasetNames) == len(d.Tokens)
+//@   loop 2
+//@     invariant -1 <= $i && $i < len(d.DatasetNames) && len(d.Tokens) == len(s.DatasetSources) && d.activeIdx == 0 && len(d.DatasetNames) == len(d.Tokens)
+//@   loop 3
+//@     invariant len(d.Tokens) == len(s.DatasetSources) && 0 <= d.activeIdx && d.activeIdx < len(s.DatasetSources)
+//@     invariant forall i int :: 0 <= i && i < len(s.DatasetSources) ==> s.DatasetSources[i] != nil
